@@ -297,6 +297,15 @@ class GridWeighted(Grid):
         # Weighted grid points must be regenerated with the new weights
         self._cache['gridptsw'] = []
 
+    def bumps(self, num_bumps, **kwargs):
+        """ Generates arbitrary bumps (i.e. hills) on the 2-dimensional grid.
+
+        Please see :py:meth:`.Grid.bumps` for the details of the arguments.
+        """
+        super(GridWeighted, self).bumps(num_bumps, **kwargs)
+        # Weighted grid points must be regenerated from the modified grid points
+        self._cache['gridptsw'] = []
+
     def reset(self):
         """ Resets the grid. """
         super(GridWeighted, self).reset()
